@@ -113,6 +113,17 @@ def enumerate_cases(tier: str):
                 for form_b in ("0;255;0;0;18;{}\n", "0;255;0;1;18;{}\n", "0;255;3;0;2;{}\n"):
                     ops = [["rx", form_a.format(first)], ["rx", "0;255;0;0;18;" + first + "\n"], ["rx", "0;7;1;0;0;1\n"], ["rx", "0;7;2;0;0;\n"], ["rx", form_b.format(then)], ["probe", "edge"]]
                     yield {"kind": "hist", "listen_mode": "persistent" if len(then) % 2 else "fresh", "ops": ops}
+    # the process treats warnings as errors (python -W error, pytest filterwarnings=error): releases that are not exactly a supported protocol
+    for text in ("2.3.2", "1.9.0", "3.0.0", "2.2.5", "1.4.9", "2.0.1", "10.0", "1.5.7", "2.1.9", "0.9"):
+        for via in ("get_protocol", "reply", "presentation"):
+            yield {"kind": "map", "text": text, "via": via, "warnings": "error"}
+        yield {"kind": "hist", "listen_mode": "persistent", "warnings": "error", "ops": [["rx", "0;255;3;0;2;2.2.0\n"], ["rx", f"0;255;3;0;2;{text}\n"], ["probe", "edge"], ["rx", f"0;255;0;0;18;{text}\n"], ["probe", "edge"]]}
+    # the application itself asks the gateway for its version (and sends other things to node 0): what was reported stays reported
+    for report in ("1.5.4", "2.1.1", "2.2.0"):
+        for mode in ("fresh", "persistent"):
+            ops = [["rx", f"0;255;3;0;2;{report}\n"], ["send", [0, 255, 3, 0, 2, ""]], ["probe", "edge"], ["send", [0, 255, 3, 1, 2, ""]], ["send", [0, 255, 3, 0, 18, ""]], ["send", [0, 255, 3, 0, 13, ""]],
+                   ["send", [1, 255, 3, 0, 2, ""]], ["probe", "edge"]]
+            yield {"kind": "hist", "listen_mode": mode, "ops": ops}
     # one gateway object, every type probed under version A, then again after the gateway reported version B
     reports = (None, "1.4", "1.5.1", "2.0.0", "2.1.1", "2.2.0", "2.3.2")
     for first in reports:
@@ -162,6 +173,8 @@ def _hist_ops():
                     ["read_error", "read"],
                     ["read_error", "failed"],
                     ["read_error", "base"],
+                    ["send", [0, 255, 3, 0, 2, ""]],
+                    ["send", [0, 255, 3, 0, 18, ""]],
                     ["bystander", "2.2.0"],
                     ["bystander", "1.5.4"],
                     ["bystander", ""],
@@ -176,12 +189,12 @@ def _hist_ops():
 def strategy(tier: str):
     return st.one_of(
         st.fixed_dictionaries({"kind": st.just("hist"), "listen_mode": st.sampled_from(("fresh", "persistent")), "ops": _hist_ops(), "debug_log": st.sampled_from((False, False, True)),
-                               "tasks": st.sampled_from((False, False, True)), "persist": st.sampled_from((None, None, "tmp", "unwritable"))}),
+                               "tasks": st.sampled_from((False, False, True)), "persist": st.sampled_from((None, None, "tmp", "unwritable")), "warnings": st.sampled_from((None, None, "error"))}),
         st.fixed_dictionaries({"kind": st.just("hist"), "listen_mode": st.sampled_from(("fresh", "persistent")), "ops": _hist_ops(), "debug_log": st.sampled_from((False, False, True)),
-                               "tasks": st.sampled_from((False, False, True)), "persist": st.sampled_from((None, None, "tmp", "unwritable"))}),
+                               "tasks": st.sampled_from((False, False, True)), "persist": st.sampled_from((None, None, "tmp", "unwritable")), "warnings": st.sampled_from((None, None, "error"))}),
         st.fixed_dictionaries(
             {"kind": st.just("map"), "text": st.one_of(release_text, common_release), "via": st.sampled_from(("get_protocol", "reply", "presentation")),
-             "debug_log": st.sampled_from((False, False, True))}
+             "debug_log": st.sampled_from((False, False, True)), "warnings": st.sampled_from((None, None, "error"))}
         ),
     )
 
@@ -263,7 +276,7 @@ def _run_gate(case: dict) -> Outcome:
 
 
 def _report_text(line: str | None) -> str | None:
-    if line is None:
+    if not isinstance(line, str):
         return None
     return _report_text_of(line)
 
@@ -276,7 +289,7 @@ def _report_text_of(line: str) -> str | None:
 
 def _run_hist(case: dict) -> Outcome:
     ops = case["ops"]
-    ops = [op if len(op) > 1 and op[0] in ("rx", "probe", "read_error") else [op[0], None] + list(op[1:]) for op in ops]
+    ops = [op if len(op) > 1 and op[0] in ("rx", "probe", "read_error", "send") else [op[0], None] + list(op[1:]) for op in ops]
     ops = [op if op[0] != "bystander" else ["bystander", op[2] if len(op) > 2 else ""] for op in ops]
     reports = [_report_text(op[1]) for op in ops if _report_text(op[1]) is not None]
     release_reports = [r for r in reports if ref_protocol(r) is not None]
@@ -341,6 +354,12 @@ def _run_hist(case: dict) -> Outcome:
         bystanders: list = []
         for idx, op in enumerate(ops):
             before = gateway.protocol_version
+            if op[0] == "send":
+                # the application sends something (e.g. its own version request): the reported version and the rules stay as they are
+                await env.send(gateway, env.mk_message(op[1]))
+                if gateway.protocol_version != before:
+                    return fail("version-changed-by-send", f"step {idx}: sending {op[1]!r} changed protocol_version {before!r} -> {gateway.protocol_version!r} (rules {gateway.protocol.VERSION})")
+                continue
             if op[0] == "read_error":
                 # the transport's read fails (line noise, a dropped link): nothing was reported, so nothing may change
                 status, value = await deliver(env.read_error(op[1]))
@@ -476,13 +495,14 @@ def _run_persisted(case: dict) -> Outcome:
 
 def run_case(case: dict) -> Outcome:
     if not case.get("debug_log"):
-        return _run_case(case)
+        with env.strict_warnings(case.get("warnings") == "error"):  # (what `python -W error` / pytest's filterwarnings=error amount to)
+            return _run_case(case)
     # the library logging at DEBUG, as under the bundled CLI; a process that starts that way resolves every version
     # string for the first time with DEBUG on, so memoised resolutions of earlier cases are forgotten first
     clear = getattr(get_protocol, "cache_clear", None)
     if clear is not None:
         clear()
-    with env.debug_logging(True):
+    with env.debug_logging(True), env.strict_warnings(case.get("warnings") == "error"):
         out = _run_case(case)
     if clear is not None:
         clear()
